@@ -31,6 +31,15 @@ def run_one(sid):
                         ignore=shutil.ignore_patterns("__pycache__"))
         p = subprocess.run(["patch", "-p1", "-s", "-d", scratch, "-i", os.path.join(d, "patch.diff")],
                            capture_output=True, text=True)
+        based_on = "working tree of " + REPO
+        if p.returncode != 0 and meta.get("base_commit"):
+            # /repo has moved on since the change was written: apply it to the commit it was written against
+            shutil.rmtree(os.path.join(scratch, "androguard"))
+            ar = subprocess.run("git -C %s archive %s androguard | tar -x -C %s" % (REPO, meta["base_commit"], scratch),
+                                shell=True, capture_output=True, text=True)
+            p = subprocess.run(["patch", "-p1", "-s", "-d", scratch, "-i", os.path.join(d, "patch.diff")],
+                               capture_output=True, text=True)
+            based_on = "commit " + meta["base_commit"]
         if p.returncode != 0:
             return {"id": sid, "property": prop, "applied": False, "detail": (p.stdout + p.stderr)[-400:]}
         env = dict(os.environ, VERIF_REPO=scratch, VERIF_EVIDENCE_DIR=os.path.join(scratch, "evidence"))
@@ -39,7 +48,7 @@ def run_one(sid):
         tier = meta.get("tier", "quick")
         q = subprocess.run([os.path.join(HERE, "check"), prop, tier], capture_output=True, text=True, env=env, cwd=HERE)
         lines = [l for l in q.stdout.splitlines() if l.startswith("VIOLATION")]
-        return {"id": sid, "property": prop, "applied": True, "exit": q.returncode, "caught": q.returncode == 1 and bool(lines),
+        return {"id": sid, "property": prop, "applied": True, "applied_to": based_on, "exit": q.returncode, "caught": q.returncode == 1 and bool(lines),
                 "violations": [l[:300] for l in lines[:4]], "wall_s": round(time.time() - t, 1),
                 "stderr_tail": q.stderr[-300:] if q.returncode not in (0, 1) else ""}
     finally:
